@@ -273,6 +273,77 @@ def sweep(ctx, rng):
     return observed
 
 
+# ---- joins of operands with DIFFERENT dtypes ---------------------------------------------------------
+
+MIXED_DTYPE_PAIRS = [
+    # (dtype, fill) of the two operands: the fills differ, but collide when one is cast to the other's dtype
+    ((np.int64, 1), (np.float64, 1.5)), ((np.bool_, True), (np.int64, 2)), ((np.uint8, 0), (np.float64, 0.25)),
+    ((np.int32, -1), (np.float32, -1.75)), ((np.int8, 3), (np.int64, 259)), ((np.float32, 0.1), (np.float64, 0.1)),
+    # fills that are equal as numbers although the dtypes differ: the join may go through, and must then be right
+    ((np.int64, 2), (np.float64, 2.0)), ((np.uint8, 0), (np.float64, 0.0)),
+]
+
+
+def mixed_dtype_joins(ctx, rng):
+    """concatenate / concat / stack of operands with different dtypes, both orders, every combination of formats: differently
+    filled operands must raise ValueError (a fill comparison that casts one fill to the other operand's dtype loses the
+    difference); whatever is accepted must equal NumPy on the densified operands at every position"""
+    import itertools
+
+    import sparse
+
+    fmts = ["coo", "gcxs", "dok"]
+    combos = list(itertools.product(fmts, fmts))
+    if ctx.quick:
+        combos = [("coo", "coo"), ("gcxs", "gcxs"), ("coo", "gcxs"), ("dok", "coo"), ("gcxs", "dok")]
+    joins = [("concatenate", lambda arrs: sparse.concatenate(arrs, axis=0), lambda ds: np.concatenate(ds, axis=0)),
+             ("concat", lambda arrs: sparse.concat(arrs, axis=1), lambda ds: np.concatenate(ds, axis=1)),
+             ("stack", lambda arrs: sparse.stack(arrs, axis=0), lambda ds: np.stack(ds, axis=0))]
+    n = 0
+    for (dt_a, fv_a), (dt_b, fv_b) in MIXED_DTYPE_PAIRS:
+        for order in (0, 1):
+            spec = [(dt_a, fv_a), (dt_b, fv_b)][:: 1 if order == 0 else -1]
+            dense = []
+            for dt, fv in spec:
+                d = np.full((2, 3), fv, dtype=dt)
+                d[0, 0] = dt(1) if dt is not np.bool_ else (not fv)
+                d[1, 2] = dt(4) if dt is not np.bool_ else (not fv)
+                dense.append(d)
+            differ = float(spec[0][1]) != float(spec[1][1])
+            for fa, fb in combos:
+                arrs = []
+                for (dt, fv), d, f in zip(spec, dense, (fa, fb)):
+                    c = sparse.COO.from_numpy(d, fill_value=dt(fv))
+                    arrs.append(c if f == "coo" else sparse.GCXS.from_coo(c) if f == "gcxs" else sparse.DOK.from_coo(c))
+                for jname, join, npjoin in joins:
+                    got, err = call(lambda: join(arrs))
+                    case = {"op": jname, "formats": [fa, fb], "dtypes": [np.dtype(t).name for t, _ in spec], "fills": [repr(v) for _, v in spec],
+                            "mixed_dtype": True, "x": dense[0].tolist(), "y": dense[1].tolist()}
+                    ctx.case(f"C:mixed-dtype-join:{jname}", case, nontrivial=True)
+                    n += 1
+                    if isinstance(err, ValueError):
+                        continue
+                    if err is not None:
+                        # a join that the format combination does not offer at all (same-dtype, same-fill baseline fails too) is not C07's
+                        base = [a.astype(np.float64) if hasattr(a, "astype") else a for a in arrs[:1]] * 2
+                        _, berr = call(lambda: join(base))
+                        if berr is not None:
+                            continue
+                        msg = f"error: raised {type(err).__name__}: {str(err)[:120]} (ValueError required)"
+                        ctx.fail("C", jname, case, msg, finding=findings.classify(PID, jname, case, msg))
+                        continue
+                    ref = npjoin(dense)
+                    m = same(got, ref, False)
+                    if differ:
+                        msg = "silent: join of differently filled arrays (different dtypes) returned" + (f"; {m}" if m else "")
+                        ctx.fail("C", jname, case, msg, finding=findings.classify(PID, jname, case, msg))
+                    elif m:
+                        msg = f"silent: {m}"
+                        ctx.fail("C", jname, case, msg, finding=findings.classify(PID, jname, case, msg))
+    ctx.count("mixed_dtype_joins", n)
+    _ = rng
+
+
 # ---- leg A: the generated table against behaviour -------------------------------------------------
 
 TABLE_TO_SWEEP = {"sparse.where": "where[1]"}
@@ -493,6 +564,7 @@ def run(ctx):
     replay_witness(ctx, summary)
     fill_contribution(ctx)
     observed = sweep(ctx, rng)
+    mixed_dtype_joins(ctx, rng)
     leg_a(ctx, observed, table)
     coercion(ctx)
     ctx.cov["rule"] = ("leg C: every name of sparse.__all__ that accepts an array (registry harness/c07_ops.py; the check fails if a name is "
